@@ -443,6 +443,7 @@ func init() {
 		c.runTemplateClose(r, "template.close", "wgsl/internal/parser")
 		c.runHelperDedupScope(r, "helper.dedupscope", all)
 		c.runImageCoordMerge(r, "image.coordmerge", "hlsl/internal/codegen")
+		c.runImageCoordBuilder(r, "image.coordbuilder", "glsl/internal/codegen")
 		c.runErrNilOnly(r, "errflow.nilonly", inPkgs("wgsl"), nil)
 		c.runSizeSignCheck(r, "size.signcheck", inPkgs("wgsl", "ir"))
 		c.runSampleOffsetKept(r, "sample.offsetkept", "wgsl/internal/lower")
@@ -1009,4 +1010,95 @@ func (c *Ctx) runSampleOffsetKept(r *Report, rule string, pkg string) {
 		})
 	}
 	r.inst("sample.offsetkept", n)
+}
+
+// image.coordbuilder (C05): GLSL image functions take signed integer
+// coordinates with the array layer as the last component. The writer has one
+// function that builds that text (it receives the array index as a
+// *ExpressionHandle and the *ImageType); every function that writes the
+// Coordinate operand of a storage-image access (ExprImageLoad, StmtImageStore,
+// StmtImageAtomic) must obtain the coordinate text from it - a hand-rolled copy
+// forgets the unsigned-to-signed conversion or the layer's vector width.
+func (c *Ctx) runImageCoordBuilder(r *Report, rule string, pkg string) {
+	helpers := map[*types.Func]bool{}
+	for _, fn := range c.allFuncs() {
+		if fn.Pkg.Rel != pkg || fn.Obj == nil {
+			continue
+		}
+		sig := fn.Obj.Type().(*types.Signature)
+		hasIdx, hasImg := false, false
+		for i := 0; i < sig.Params().Len(); i++ {
+			if p, ok := sig.Params().At(i).Type().(*types.Pointer); ok {
+				switch irTypeName(p.Elem()) {
+				case "ExpressionHandle":
+					hasIdx = true
+				case "ImageType":
+					hasImg = true
+				}
+			}
+		}
+		if hasIdx && hasImg {
+			helpers[fn.Obj] = true
+		}
+	}
+	r.inst("image.coordHelpers", len(helpers))
+	access := map[string]bool{"ExprImageLoad": true, "StmtImageStore": true, "StmtImageAtomic": true}
+	n := 0
+	for _, fn := range c.allFuncs() {
+		if fn.Pkg.Rel != pkg || fn.Obj == nil || fn.Decl.Body == nil || helpers[fn.Obj] {
+			continue
+		}
+		sig := fn.Obj.Type().(*types.Signature)
+		var node *types.Var
+		for i := 0; i < sig.Params().Len(); i++ {
+			if access[irTypeName(sig.Params().At(i).Type())] {
+				node = sig.Params().At(i)
+			}
+		}
+		if node == nil {
+			continue
+		}
+		info := fn.Pkg.Info
+		writesCoord, usesHelper := false, false
+		var site ast.Node
+		ast.Inspect(fn.Decl.Body, func(k ast.Node) bool {
+			call, ok := k.(*ast.CallExpr)
+			if !ok {
+				return true
+			}
+			f := calleeOf(info, call)
+			if f == nil {
+				return true
+			}
+			for _, a := range call.Args {
+				se, ok := ast.Unparen(a).(*ast.SelectorExpr)
+				if !ok || se.Sel.Name != "Coordinate" {
+					continue
+				}
+				if id, ok := ast.Unparen(se.X).(*ast.Ident); !ok || info.ObjectOf(id) != node {
+					continue
+				}
+				if helpers[f.Origin()] {
+					usesHelper = true
+				} else if f.Name() == "writeExpression" {
+					writesCoord = true
+					if site == nil {
+						site = call
+					}
+				}
+			}
+			return true
+		})
+		if !writesCoord {
+			continue
+		}
+		n++
+		cons := fn.id() + ":Coordinate"
+		if usesHelper {
+			r.ok(rule, cons, c.pos(site.Pos()), "")
+		} else {
+			r.viol(rule, cons, c.pos(site.Pos()), fn.id()+" writes the coordinate of a storage-image access without the coordinate builder its siblings use: an unsigned coordinate is not converted to the signed vector the GLSL image functions take, and the layer is merged by hand")
+		}
+	}
+	r.inst(rule, n)
 }
